@@ -1,4 +1,4 @@
-CONSTANTS K = 6 NP = 2 Sizes = {0, 1, 2, 3, 4, 7, 13} Fills = {0, 1, 2} MaxBlocks = 4 Faults = {"none", "drop", "badbp"} TailCheck = TRUE
+CONSTANTS K = 6 NP = 2 Sizes = {0, 1, 2, 3, 4, 7, 13} Fills = {0, 1, 2} MaxBlocks = 4 Faults = {"none", "drop", "badbp"} TailCheck = TRUE Foreign = {"none", "page", "stream", "mag"} TailAtForeign = TRUE
 SPECIFICATION Spec
 INVARIANTS Sound Complete Resume
 CHECK_DEADLOCK FALSE
